@@ -229,10 +229,12 @@ def plan_C04(tier, seed):
         for d in degs:
             sh.append(Shard("grid_n%d_d%03d" % (n, d), drv_angle.gen_sexa_grid, dict(n=n, degs=[d], offs=offs), *T))
     return dict(
-        mc=[MC("MC_Sexa", "MC_Sexa.cfg", workers=8, heap="3g", note="integer carry model of dms_str over all carry windows, n=0..2")],
+        mc=[MC("MC_Sexa", "MC_Sexa.cfg", workers=8, heap="3g", note="integer carry model of dms_str over all carry windows, n=0..2"),
+            Apa("Apa_Sexa", "AnyValue", "PrintLaw", 0, note="the carry model meets the print law for EVERY value below one turn, n = 0..3 (symbolic)")],
         shards=sh, level="model_checking", exhaustive=False, nontrivial=_nt_sexa,
         rule="TLC checks the integer carry model of dms_str on every value within +-25 fine units of every whole minute of 7 "
-             "degrees x 5 seconds values, n_dec 0..2 (321,300 states): no 60, half-unit read-back. Conformance: (a) the same "
+             "degrees x 5 seconds values, n_dec 0..2 (321,300 states): no 60, half-unit read-back; Apalache proves the same law "
+             "for every value below one turn and n_dec 0..3. Conformance: (a) the same "
              "grid values are printed by the real Angle.dms_str (both styles) and judged; (b) seeded values in (-360,360) "
              "concentrated within 1e-12, 1-3 ulp and 0.4/0.5/0.6 last-decimal units of whole seconds/minutes/degrees (hours for "
              "RA), of 0 and +-360, plus denormals and uniform random; (c) values below one degree / hour whose seconds lie 1.5e-11 .. 1e-7 arcsec either side of a rounding tie of the requested decimal, judged with a slack of 7e-12 arcsec (single rounding): dms_tuple, ra_tuple, dms_str, ra_str x fancy/colon x "
